@@ -44,7 +44,21 @@ with ThreadPoolExecutor(jobs) as ex:
         print(d, prop, verdict, cls[:2], flush=True)
         rows.append((d, prop, verdict, "; ".join(cls[:3])))
         open(V + "/seeded/%s/last_check.log" % d, "w").write(out[-6000:])
+# merge with the rows of earlier runs (ids not run this time keep their last result)
+prev = {}
+try:
+    for line in open(V + "/seeded/RESULTS.md"):
+        c = [x.strip() for x in line.strip().strip("|").split("|")]
+        if len(c) >= 4 and re.match(r"^C\d+-\d+$", c[0]):
+            prev[c[0]] = tuple(c[:4])
+except FileNotFoundError:
+    pass
+for r in rows:
+    prev[r[0]] = r
+def key(i):
+    a, b = i.split("-")
+    return (a, int(b))
 with open(V + "/seeded/RESULTS.md", "w") as f:
-    f.write("| seeded change | property | quick-style check (%ss, 8 workers) | violation classes |\n|---|---|---|---|\n" % secs)
-    for r in rows:
-        f.write("| %s | %s | %s | %s |\n" % r)
+    f.write("| seeded change | property | check run against the patched tree (%ss per check, 8 workers) | violation classes |\n|---|---|---|---|\n" % secs)
+    for i in sorted(prev, key=key):
+        f.write("| %s | %s | %s | %s |\n" % prev[i])
